@@ -192,7 +192,7 @@ class C10(Prop):
             tid = rng.choice(ids)
         route = rng.choice(routes)
         r = rng.random()
-        status = rng.choice(FINALS) if r < 0.22 else 'inprogress' if r < 0.4 else 'unknown' if r < 0.42 else None
+        status = rng.choice(FINALS) if r < 0.22 else 'inprogress' if r < 0.4 else 'unknown' if r < 0.44 else None     # 'unknown': a member of STATES too
         if undecodable and r < 0.22:
             status = rng.choice(['fail', 'xfail', 'skip', 'fail', 'xfail', 'skip', 'success', 'uxsuccess'])
         tags = None
@@ -271,6 +271,7 @@ class C10(Prop):
         d = [ev(0, fname=name, fbytes=bs, mime=1) for name in (0, 1, 2) for bs in ([0xFF, 0xFE], [0xC3])]
         d += [ev(0, fname=2, fbytes=[0xA9]), ev(0, fname=0, fbytes=[0xA9], mime=4)]
         d += [ev(0, st) for st in ('fail', 'xfail', 'skip', 'success', 'uxsuccess', 'inprogress')]
+        d += [ev(0, 'unknown'), ev(S.EMPTY_ID, 'exists')]         # the rest of STATES as explicit statuses
         # falsy but valid: the empty test id, the empty route code (another key than None), the empty file name, an empty tag set,
         # a zero-length chunk with eof as the only chunk of a file
         d += [ev(S.EMPTY_ID, 'inprogress', ts=1), ev(S.EMPTY_ID, 'fail', route=ROUTES[4]), ev(0, 'success', tags=[], route=ROUTES[4]),
